@@ -126,12 +126,50 @@ pub fn gen_header_arg(rng: &mut Rng) -> Arg {
 
 /// Signature descriptor as three args: protected header idx, unprotected header idx, signature bytes.
 pub fn gen_sig_args(rng: &mut Rng) -> Vec<Arg> {
-    vec![gen_header_arg(rng), gen_header_arg(rng), Arg::B(bytes_palette()[pick_small_bytes_idx(rng)].clone())]
+    vec![gen_template_protected_arg(rng), gen_header_arg(rng), Arg::B(bytes_palette()[pick_small_bytes_idx(rng)].clone())]
+}
+
+/// Protected header of a signature / recipient template.  A template is either built in memory
+/// (no retained wire bytes) or was itself decoded from the wire: when the argument carries bytes
+/// that are not the reference encoding of the header they parse to (the long-form empty map
+/// `a0`, an indefinite-length map, wide heads), those bytes are the template's retained wire bytes.
+pub fn protected_from_arg(step: &Step, i: usize) -> HResult<MProtected> {
+    let h = header_from_arg(step, i)?;
+    if let Some(Arg::B(b)) = step.args.get(i) {
+        let reference = if h.is_empty() { Vec::new() } else { crate::refcbor::encode(&h.to_item()) };
+        if *b != reference {
+            return Ok(MProtected { original: Some(b.clone()), header: h });
+        }
+    }
+    Ok(MProtected::built(h))
+}
+
+/// Header argument for the protected slot of a template: sometimes in a wire form a decoder
+/// would have retained.
+pub fn gen_template_protected_arg(rng: &mut Rng) -> Arg {
+    if rng.chance(1, 8) {
+        match rng.below(4) {
+            0 => return Arg::B(vec![0xa0]),
+            1 => return Arg::B(vec![0xbf, 0xff]),
+            _ => {
+                let h = crate::traffic::gen_header(rng, &crate::traffic::GenCfg::small(), 1);
+                let it = h.to_item();
+                let mut out = Vec::new();
+                crate::refcbor::write_item(&it, &mut out, &mut crate::refcbor::Seeded { rng, widen: 6, indef: 6 });
+                if let Ok(back) = crate::refcbor::read_exact(&out) {
+                    if MHeader::from_item(&back).as_ref() == Some(&h) {
+                        return Arg::B(out);
+                    }
+                }
+            }
+        }
+    }
+    gen_header_arg(rng)
 }
 
 pub fn sig_from_args(step: &Step, at: usize) -> HResult<MSignature> {
     Ok(MSignature {
-        protected: MProtected::built(header_from_arg(step, at)?),
+        protected: protected_from_arg(step, at)?,
         unprotected: header_from_arg(step, at + 1)?,
         signature: step.bytes(at + 2)?.to_vec(),
     })
@@ -141,7 +179,7 @@ pub fn sig_from_args(step: &Step, at: usize) -> HResult<MSignature> {
 /// nested (0 = none, 1 = one nested recipient with empty headers and ciphertext h'4e').
 pub fn gen_recipient_args(rng: &mut Rng) -> Vec<Arg> {
     vec![
-        gen_header_arg(rng),
+        gen_template_protected_arg(rng),
         gen_header_arg(rng),
         if rng.chance(1, 4) { Arg::S("none".into()) } else { Arg::B(bytes_palette()[pick_small_bytes_idx(rng)].clone()) },
         Arg::I(if rng.chance(1, 4) { 1 } else { 0 }),
@@ -151,7 +189,7 @@ pub fn gen_recipient_args(rng: &mut Rng) -> Vec<Arg> {
 pub fn recipient_from_args(step: &Step, at: usize) -> HResult<MRecipient> {
     let nested = step.int(at + 3)?;
     Ok(MRecipient {
-        protected: MProtected::built(header_from_arg(step, at)?),
+        protected: protected_from_arg(step, at)?,
         unprotected: header_from_arg(step, at + 1)?,
         ciphertext: opt_bytes_from(step, at + 2)?,
         recipients: if nested == 1 {
